@@ -19,11 +19,16 @@ var (
 	c15CopyNames = []string{"copy", "dir/copy", "x/o/y", "o/o/o", "a/o/b/o/c", "a b", "a..b", "ü/ñ.txt", "p/o", "weird/o/.x y"}
 	// parts of different sizes that the append scenario adds to an object and to its copy
 	c15ChunkNames = []string{"chunk-s", "chunk-m", "chunk-l"}
+	// twin names that differ only in '+' versus space: both exist side by side (with different contents) in half of
+	// the cases, as sources and as destination candidates. A '+' is sent literally in the request path (as
+	// url.PathEscape leaves it) or as %2B, by case.
+	c15PlusSrcPairs = [][2]string{{"q1+q2", "q1 q2"}, {"dir/p+q", "dir/p q"}, {"a+b/c+d", "a b/c d"}, {"1+1=2", "1 1=2"}}
+	c15PlusDstPairs = [][2]string{{"out+put", "out put"}, {"dir+d/sub+dir/o", "dir d/sub dir/o"}, {"x/o/y+z", "x/o/y z"}, {"c++", "c  "}}
 )
 
 // C15: compose concatenates its sources in order; copy clones an object.
 func runC15(run *common.Run) {
-	run.Rule = "case = one program in ONE pair of fresh buckets: 2-5 source objects (one empty, some with rich metadata), a baseline dump, then 3-8 compose / copy requests that re-use the same sources (the same leading source over and over), take earlier composed or copied objects as later sources and write destinations that are among the sources, with a whole-store dump after EVERY request (so an earlier object changing under a later request is seen). One case in three (plus a random fifth) contains the append scenario at a random position: a live object X is copied to Y (same bucket, one in four across buckets; half of these copies with a full resource as request body), then X = compose[X, parts] and Y = compose[Y, other parts] are issued 1-3 rounds in either order without any upload in between, the parts being three objects of 1-8, 30-200 and 600-5000 bytes; dump after every request. One case in three (plus a random sixth) contains the same-size scenario: a destination D = compose[a, b(, c)] is written again, while it exists and is itself a composite object, with content of exactly the same length but other bytes - 1-3 rounds of: the same sources in another order; one source overwritten by an upload of other bytes of the same length, then the same list again; a second composite D2 = the sources in yet another order, then D2 copied over D or D over D2 (one copy in three with a resource body). Independently one step in six (when an earlier compose of 2-6 sources succeeded) repeats that compose onto its destination with the sources shuffled. One source in ten is stored with contentEncoding gzip (real gzip bytes) so that copies must carry the encoding along; every media GET of every dump is sent with or without 'Accept-Encoding: gzip'. Compose: 0..33 sources (boundary counts 0,1,2,31,32,33 over-weighted) drawn with repeats from the pool, destination among the sources, a missing source at a random position, per-source generation conditions, destination names with '/', spaces, dots, unicode, pre-existing destination, destination contentType / user metadata. Copy: same and cross bucket, one in three with a request body that is a full destination resource (stale / made-up output-only fields, the source's user-settable fields), destination names containing '/', '/o/', spaces, dots, unicode, missing source, overwrite of an existing destination. Oracle: destination content == concatenation in request order, destination metadata from the request, every source byte-, metadata-, generation- and metageneration-identical to before, >32 => 400, missing => 404 and nothing changed, copy response carries the resource with totalBytesRewritten == objectSize == len(content) and the source's content, MD5 and user-settable metadata. Non-trivial = the program had >= 2 successful requests, a successful compose of >= 2 sources and a step that used an earlier result as a source; distinct by hash of the step log x store."
+	run.Rule = "case = one program in ONE pair of fresh buckets: 2-5 source objects (one empty, some with rich metadata), a baseline dump, then 3-8 compose / copy requests that re-use the same sources (the same leading source over and over), take earlier composed or copied objects as later sources and write destinations that are among the sources, with a whole-store dump after EVERY request (so an earlier object changing under a later request is seen). One case in three (plus a random fifth) contains the append scenario at a random position: a live object X is copied to Y (same bucket, one in four across buckets; half of these copies with a full resource as request body), then X = compose[X, parts] and Y = compose[Y, other parts] are issued 1-3 rounds in either order without any upload in between, the parts being three objects of 1-8, 30-200 and 600-5000 bytes; dump after every request. One case in three (plus a random sixth) contains the same-size scenario: a destination D = compose[a, b(, c)] is written again, while it exists and is itself a composite object, with content of exactly the same length but other bytes - 1-3 rounds of: the same sources in another order; one source overwritten by an upload of other bytes of the same length, then the same list again; a second composite D2 = the sources in yet another order, then D2 copied over D or D over D2 (one copy in three with a resource body). Independently one step in six (when an earlier compose of 2-6 sources succeeded) repeats that compose onto its destination with the sources shuffled. One source in ten is stored with contentEncoding gzip (real gzip bytes) so that copies must carry the encoding along; every media GET of every dump is sent with or without 'Accept-Encoding: gzip'. Compose: 0..33 sources (boundary counts 0,1,2,31,32,33 over-weighted) drawn with repeats from the pool, destination among the sources, a missing source at a random position, per-source generation conditions, destination names with '/', spaces, dots, unicode, '+' (half of the cases hold twin names that differ only in '+' versus space, with different contents, among the sources and the destination candidates of compose and copy; the '+' travels literally in the request path or as %2B, by case), pre-existing destination, destination contentType / user metadata. Copy: same and cross bucket, one in three with a request body that is a full destination resource (stale / made-up output-only fields, the source's user-settable fields), destination names containing '/', '/o/', spaces, dots, unicode, missing source, overwrite of an existing destination. Oracle: destination content == concatenation in request order, destination metadata from the request, every source byte-, metadata-, generation- and metageneration-identical to before, >32 => 400, missing => 404 and nothing changed, copy response carries the resource with totalBytesRewritten == objectSize == len(content) and the source's content, MD5 and user-settable metadata. Non-trivial = the program had >= 2 successful requests, a successful compose of >= 2 sources and a step that used an earlier result as a source; distinct by hash of the step log x store."
 	run.Assumptions = []string{
 		"0 sources: a 4xx (nothing changed) or an empty object are both accepted (the statement says 1 to 32)",
 		"a composite object need not carry an md5Hash",
@@ -106,11 +111,34 @@ func c15Case(run *common.Run, srv *drive.Server, idx int) {
 			}
 		}
 	}
+	plusCase := (idx/2)%2 == 0
+	if plusCase {
+		// (uploaded after the other sources; each twin gets its own random content)
+		srv.Client.PlusEscaped = (idx/4)%2 == 0
+		defer func() { srv.Client.PlusEscaped = false }()
+		pair := common.Pick(r, c15PlusSrcPairs)
+		for _, n := range pair {
+			u := &uploadSpec{Proto: common.Pick(r, []string{"media", "multipart"}), Bucket: b1, Name: n, Body: r.Bytes(r.Range(1, 300)), CT: common.Pick(r, contentTypes), CTMode: "both", Boundary: genBoundary(r)}
+			if msg := e.upload(u, r); msg != "" {
+				fail("set-up: " + msg)
+				return
+			}
+			pool = append(pool, n)
+		}
+		run.Count("cases_with_plus_and_space_twin_names", 1)
+		if srv.Client.PlusEscaped {
+			run.Count("cases_with_plus_sent_as_%2B_in_paths", 1)
+		}
+	}
 	// The destination candidates of this case are fixed up front so that every dump reads the same name set
 	// (sources, candidates, every "/"-prefix of a candidate: a truncated or mangled destination shows up there).
 	dstCands := append(append(append([]string(nil), c15CopyNames...), c15DstNames...), c15VerbNames...)
 	common.Shuffle(r, dstCands)
 	dstCands = dstCands[:5]
+	if plusCase {
+		pair := common.Pick(r, c15PlusDstPairs)
+		dstCands = append(dstCands[:3], pair[0], pair[1])
+	}
 	for _, b := range []string{b1, b2} {
 		u := append([]string{"decoy", "missing-source"}, pool...)
 		u = append(u, c15ChunkNames...)
@@ -493,6 +521,9 @@ func c15Case(run *common.Run, srv *drive.Server, idx int) {
 			if e.stats["composes_ok"] > before {
 				okOps++
 				composed[dst] = true
+				if strings.Contains(dst, "+") {
+					run.Count("composes_ok_onto_a_destination_with_plus", 1)
+				}
 				if len(spec.Srcs) >= 2 && len(spec.Srcs) <= 6 {
 					var names []string
 					for _, sr := range spec.Srcs {
@@ -543,6 +574,12 @@ func c15Case(run *common.Run, srv *drive.Server, idx int) {
 			}
 			if e.stats["copies_ok"] > before {
 				okOps++
+				if strings.Contains(sn, "+") {
+					run.Count("copies_ok_from_a_source_with_plus", 1)
+				}
+				if strings.Contains(dn, "+") {
+					run.Count("copies_ok_onto_a_destination_with_plus", 1)
+				}
 				if selfCopy {
 					run.Count("copies_onto_the_source_itself_ok", 1)
 				}
